@@ -170,12 +170,12 @@ func (in *Interp) scopeFor(key interface{}, parent *Env) *Env {
 		return newEnv(parent)
 	}
 	// N: outside functions variables are global slots: one variable per definition site
-	k := fmt.Sprintf("%p", key)
+	k := fmt.Sprintf("stmt:%p", key)
 	if s, ok := key.([]gen.Stmt); ok {
 		if len(s) == 0 {
 			return newEnv(parent)
 		}
-		k = fmt.Sprintf("%p", s[0])
+		k = fmt.Sprintf("block:%p", s[0]) // a block is identified by its first statement (distinct from that statement's own scope)
 	}
 	if e, ok := in.blocks[k]; ok {
 		// scoping is static: on re-entry the block's names are invisible again until their := executes
